@@ -210,6 +210,10 @@ pub fn gen_cfg(prop: &str, seed: u64) -> RunCfg {
             base_cfg(prop, "contract", seed, &mut g, vec![spec], ops)
         }
         "C09" => {
+            if g.rng.pct(6) {
+                // appending continues the lower layer's bytes - also when there are many of them
+                g.size_profile = 2;
+            }
             let pp = phys_pct_for(&mut g.rng);
             let spec = overlay_stack(&mut g, pp, 1, 4);
             let mut world = World { m: vec![spec.view()], w: Default::default() };
@@ -351,6 +355,9 @@ pub fn gen_cfg(prop: &str, seed: u64) -> RunCfg {
         }
         "C11" => {
             // ordered pairs: same instance / two instances of one backend / two different stacks
+            if g.rng.pct(10) {
+                g.size_profile = 2;
+            }
             let pp = phys_pct_for(&mut g.rng);
             let pair = g.rng.below(3);
             let s0 = if g.rng.pct(50) { g.leaf(pp) } else { any_stack(&mut g, pp) };
@@ -821,7 +828,11 @@ pub fn gen_cfg(prop: &str, seed: u64) -> RunCfg {
         }
         "C15" => {
             g.allow_seek = false;
-            g.size_profile = if g.rng.pct(25) { 1 } else { 0 };
+            g.size_profile = match g.rng.weighted(&[67, 25, 8]) {
+                0 => 0,
+                1 => 1,
+                _ => 2,
+            };
             let pp = if g.rng.pct(15) { 50 } else { 0 };
             let spec = match g.rng.weighted(&[25, 40, 35]) {
                 0 => g.leaf(pp),
@@ -979,8 +990,13 @@ pub fn handle_script(g: &mut Gen, spec: &Spec) -> Vec<Op> {
                 } else {
                     let w = *g.rng.pick(&[Whence::Start, Whence::Current, Whence::End]);
                     let mut off = offsets(g, flen);
+                    if all_mem && g.rng.pct(15) {
+                        // in-memory read handles have no OS limit: positions up to and beyond 2^63
+                        // and the extreme relative offsets must behave like std::io::Cursor
+                        off = *g.rng.pick(&[i64::MAX, i64::MAX - 1, i64::MIN, i64::MIN + 1, 1i64 << 62, -(1i64 << 62), 1, -1, 0]);
+                    }
                     if w == Whence::Start {
-                        off = off.abs();
+                        off = off.checked_abs().unwrap_or(i64::MAX);
                     }
                     ops.push(Op::HSeek(1, w, off));
                 }
@@ -1133,6 +1149,26 @@ pub fn hostile(q: &str, rng: &mut Rng, names: &[String]) -> String {
             4 => "../..".into(),
             _ => format!("/../{}/./..", nm(rng)),
         };
+    }
+    if rng.pct(18) {
+        // successive joins: a NON-root base, then an argument that climbs to the root or higher
+        // (clamped there) and descends to the target again
+        let depth = 1 + rng.below(3);
+        let mut base = String::new();
+        for k in 0..depth {
+            base.push('/');
+            if k < comps.len() && rng.pct(50) {
+                base.push_str(comps[k]);
+            } else {
+                base.push_str(&nm(rng));
+            }
+        }
+        let base_depth = canon(&base).map(|c| c.matches('/').count()).unwrap_or(depth);
+        let climb = base_depth + *rng.pick(&[0usize, 0, 1, 3]);
+        let out = format!("{}{}{}{}", base, crate::model::JOIN_SEP, "../".repeat(climb), comps.join("/"));
+        if canon(&out).ok().as_deref() == Some(q) {
+            return out;
+        }
     }
     let mut out = String::new();
     match rng.below(9) {
